@@ -103,6 +103,17 @@ func newIncomingContext(ctx context.Context, header http.Header) (context.Contex
 }
 
 func setOutgoingHeader(header http.Header, md metadata.MD) {
+	setOutgoingMetadata(header, md, "")
+}
+
+// setOutgoingTrailer sets md as trailers. Keys are prefixed with
+// http.TrailerPrefix so that they are sent even though they were not
+// declared before the headers were written.
+func setOutgoingTrailer(header http.Header, md metadata.MD) {
+	setOutgoingMetadata(header, md, http.TrailerPrefix)
+}
+
+func setOutgoingMetadata(header http.Header, md metadata.MD, prefix string) {
 	for k, vs := range md {
 		if isReservedResponseHeader(k) {
 			continue
@@ -115,7 +126,7 @@ func setOutgoingHeader(header http.Header, md metadata.MD) {
 			}
 			vs = dst
 		}
-		header[textproto.CanonicalMIMEHeaderKey(k)] = vs
+		header[prefix+textproto.CanonicalMIMEHeaderKey(k)] = vs
 	}
 }
 
@@ -602,13 +613,11 @@ func (m *Mux) serveGRPC(w http.ResponseWriter, r *http.Request) {
 			h.Set("Grpc-Status-Details-Bin", encodeBinHeader(stBytes))
 		}
 	}
-	setOutgoingHeader(h, stream.trailer)
+	setOutgoingTrailer(h, stream.trailer)
 
 	if sh := m.opts.statsHandler; sh != nil {
 		endTime := time.Now()
 
-		// Try to send Trailers, might not be respected.
-		setOutgoingHeader(w.Header(), stream.trailer)
 		sh.HandleRPC(ctx, &stats.OutTrailer{
 			Trailer: stream.trailer.Copy(),
 		})
